@@ -92,6 +92,13 @@ impl<'de> serde::Deserialize<'de> for TimeTriggerInterval {
             where
                 E: de::Error,
             {
+                if v > i64::MAX as u64 {
+                    return Err(E::invalid_value(
+                        de::Unexpected::Unsigned(v),
+                        &"a number of seconds that fits in 63 bits",
+                    ));
+                }
+
                 Ok(TimeTriggerInterval::Second(v as i64))
             }
 
